@@ -76,17 +76,18 @@ type evRec struct {
 }
 
 type world struct {
-	c          *EngCase
-	eng        timing.Engine
-	seq        uint64
-	recs       []*evRec
-	inflight   int
-	V          *kit.Violation
-	paused     bool // between Pause() returning and Continue() being called
-	runDone    bool
-	ctlDone    bool
-	pausesDone int
-	phase      *kit.Violation
+	c             *EngCase
+	eng           timing.Engine
+	seq           uint64
+	recs          []*evRec
+	inflight      int
+	V             *kit.Violation
+	paused        bool // between Pause() returning and Continue() being called
+	startedPaused int  // handler starts in the current pause
+	runDone       bool
+	ctlDone       bool
+	pausesDone    int
+	phase         *kit.Violation
 }
 
 // failPhase records the phase-order finding separately so that it does not hide
@@ -134,6 +135,13 @@ func (h handler) Handle(e timing.Event) error {
 	w.inflight++
 
 	if w.paused {
+		// the listed finding on the serial engine is the one event whose pause check
+		// had already passed; a second start in the same pause is something else
+		w.startedPaused++
+		if w.startedPaused >= 2 {
+			w.fail("pause-quiescent", "C05:handlers-keep-starting-while-paused["+engName(w.c)+"]", "event #%d (t=%d) is handler start number %d after Pause() had returned and before Continue() was called (%s engine)", ev.ord, ev.time, w.startedPaused, engName(w.c))
+		}
+
 		w.failPhase("pause-quiescent", "C05:handler-started-while-paused["+engName(w.c)+"]", "event #%d (t=%d) started after Pause() had returned and before Continue() was called (%s engine)", ev.ord, ev.time, engName(w.c))
 	}
 
